@@ -129,6 +129,14 @@ func baseEnv() []string {
 	return append(env, "GOFLAGS=-mod=mod", "GOPROXY=off", "GOSUMDB=off", "GOTOOLCHAIN=local")
 }
 
+// workRoot: scratch directory (VERIF_WORK relocates it so that a sensitivity run can go on beside a normal run).
+func workRoot() string {
+	if d := os.Getenv("VERIF_WORK"); d != "" {
+		return d
+	}
+	return filepath.Join(root, "work")
+}
+
 func repoDir() string {
 	if d := os.Getenv("VERIF_REPO"); d != "" {
 		return d
@@ -148,7 +156,7 @@ func build(out string, tags string, race bool) error {
 	cmd.Env = baseEnv()
 	if rd := repoDir(); rd != "/repo" {
 		// alternate repository location (sensitivity runs against scratch copies)
-		modfile := filepath.Join(root, "work", "alt.go.mod")
+		modfile := filepath.Join(workRoot(), "alt.go.mod")
 		b, err := os.ReadFile(filepath.Join(root, "harness", "go.mod"))
 		if err != nil {
 			return err
@@ -158,7 +166,7 @@ func build(out string, tags string, race bool) error {
 			return err
 		}
 		sum, _ := os.ReadFile(filepath.Join(root, "harness", "go.sum"))
-		_ = os.WriteFile(filepath.Join(root, "work", "alt.go.sum"), sum, 0o644)
+		_ = os.WriteFile(filepath.Join(workRoot(), "alt.go.sum"), sum, 0o644)
 		cmd.Args = append(cmd.Args[:2], append([]string{"-modfile", modfile}, cmd.Args[2:]...)...)
 	}
 	b, err := cmd.CombinedOutput()
@@ -302,7 +310,7 @@ func replayFresh(bin, file string, timeout time.Duration) (bool, bool, string) {
 }
 
 func replayCmd(file string) int {
-	bin := filepath.Join(root, "work", "bin", "props.test")
+	bin := filepath.Join(workRoot(), "bin", "props.test")
 	if err := os.MkdirAll(filepath.Dir(bin), 0o755); err != nil {
 		fmt.Println(err)
 		return 2
@@ -371,13 +379,13 @@ func runCheck(c *propCfg, tier string) int {
 	if seed < 0 {
 		seed = -seed
 	}
-	work := filepath.Join(root, "work", c.id+"-"+tier)
+	work := filepath.Join(workRoot(), c.id+"-"+tier)
 	_ = os.RemoveAll(work)
 	if err := os.MkdirAll(work, 0o755); err != nil {
 		fmt.Println("cannot create work dir:", err)
 		return 2
 	}
-	binDir := filepath.Join(root, "work", "bin")
+	binDir := filepath.Join(workRoot(), "bin")
 	_ = os.MkdirAll(binDir, 0o755)
 	_ = os.MkdirAll(filepath.Join(root, "evidence"), 0o755)
 
@@ -630,20 +638,20 @@ func runCheck(c *propCfg, tier string) int {
 		}
 	}
 	cov := map[string]interface{}{
-		"evaluations":         m.Evaluations,
-		"distinct_nontrivial": m.Distinct,
-		"nontrivial_evals":    m.Nontrivial,
-		"rule":                c.rule,
-		"samples":             samples,
-		"classes":             m.Classes,
-		"skipped":             m.Skipped,
-		"shards":              m.Shards,
-		"notes":               m.Notes,
+		"evaluations":           m.Evaluations,
+		"distinct_nontrivial":   m.Distinct,
+		"nontrivial_evals":      m.Nontrivial,
+		"rule":                  c.rule,
+		"samples":               samples,
+		"classes":               m.Classes,
+		"skipped":               m.Skipped,
+		"shards":                m.Shards,
+		"notes":                 m.Notes,
 		"exhaustive_subdomains": m.Exhaustive,
-		"completed_subtests":  m.Completed,
-		"timed_out":           timedOut,
-		"known_findings":      keys(knownPrinted),
-		"replay_files_run":    countReplays(c.id),
+		"completed_subtests":    m.Completed,
+		"timed_out":             timedOut,
+		"known_findings":        keys(knownPrinted),
+		"replay_files_run":      countReplays(c.id),
 	}
 	if fuzzExecs >= 0 {
 		cov["native_fuzz_target"] = c.fuzz
@@ -655,7 +663,7 @@ func runCheck(c *propCfg, tier string) int {
 	evDir := filepath.Join(root, "evidence")
 	if repoDir() != "/repo" {
 		// sensitivity runs against another checkout never touch the committed evidence
-		evDir = filepath.Join(root, "work", "evidence-alt")
+		evDir = filepath.Join(workRoot(), "evidence-alt")
 		_ = os.MkdirAll(evDir, 0o755)
 	}
 	_ = os.WriteFile(filepath.Join(evDir, c.id+".json"), eb, 0o644)
@@ -726,7 +734,7 @@ func tailFile(p string, n int) string {
 // runNativeFuzz runs a coverage-guided go fuzz campaign on the property's target (thorough tier). A failing input is
 // written as a replay file by the target itself (VERIF_OUT), and then handled like any other failing shard.
 func runNativeFuzz(c *propCfg, work string, seed int64, results *[]shardResult, infra *[]string) int64 {
-	bin := filepath.Join(root, "work", "bin", "props-fuzz.test")
+	bin := filepath.Join(workRoot(), "bin", "props-fuzz.test")
 	cmd := exec.Command("go", "test", "-c", "-vet=off", "-fuzz=Fuzz", "-tags", "verif", "-o", bin, "./props")
 	cmd.Dir = filepath.Join(root, "harness")
 	cmd.Env = baseEnv()
@@ -744,7 +752,7 @@ func runNativeFuzz(c *propCfg, work string, seed int64, results *[]shardResult, 
 		}
 	}
 	base := filepath.Join(work, "fuzz")
-	cache := filepath.Join(root, "work", "fuzzcache", c.id)
+	cache := filepath.Join(workRoot(), "fuzzcache", c.id)
 	_ = os.MkdirAll(cache, 0o755)
 	pkgDir := filepath.Join(root, "harness", "props")
 	crashDir := filepath.Join(pkgDir, "testdata", "fuzz", c.fuzz)
